@@ -115,9 +115,12 @@ def part_cleanup(ctx):
         cases.append({"id": k, "op": "c13.cleanup", "files": sorted(fs), "dirs": rng.sample(dirs, rng.randint(0, 2)),
                       "preserve": rng.sample(["a", "e", "a/b"], rng.randint(1, 2)), "target": target})
     impl = ctx.impl(cases)
+    model = ctx.model(cases)
     for c in cases:
         o = impl[c["id"]].get("out") or {}
         ctx.seen(c, ("clean", c["id"]) if o.get("removed") else None)
+        if "error" in o or (not o.get("failed") and o.get("removed") != model[c["id"]].get("out")):
+            ctx.brk("util.DirCleanUpPaths ~ Cleanup.dirCleanUpPaths", c, o, model[c["id"]].get("out"))
         if o.get("failed"):
             ctx.fail("DirCleanUpPaths returned a directory that is not empty", c, None, o)
         for r in o.get("removed") or []:
